@@ -53,10 +53,14 @@ structure St where
   broken : Bool
   forks  : List (String × Lookup)
 
+def findFork (name : String) : List (String × Lookup) → Option Lookup
+  | [] => none
+  | (k, v) :: t => if k = name then some v else findFork name t
+
 def lookup (s : St) (name : String) : Lookup :=
   if s.broken then .nodeNotFound
-  else match s.forks.find? (fun p => p.1 = name) with
-    | some p => p.2
+  else match findFork name s.forks with
+    | some l => l
     | none => .absent
 
 /-- `InsertTrieNode(h.GetKey(), h)` (what `minersc.add_hardfork` does per entry). -/
